@@ -2,6 +2,7 @@
 from __future__ import annotations
 
 import ast
+import re
 from typing import Dict, List, Optional, Set, Tuple
 
 from ..ctx import Ctx
@@ -295,34 +296,28 @@ def fmt7(ctx: Ctx) -> None:
 
 # ===================================================================== C19
 def fmt4(ctx: Ctx) -> None:
+    """FMT-4 Frame._format omits the frame's own code line exactly when its last context is exiting
+    (the summary side of the same rule is decided by the emission table, FMT-13)"""
     mod = ctx.P.mod("_types")
-    tests = []
-    for q in ("Frame._format", "Frame.as_stdlib_summary_with_contexts"):
-        fn = mod.fn(q)
-        ctx.R.saw(mod, q)
-        cand = [s for s in ast.walk(fn) if isinstance(s, ast.If) and "is_exiting" in norm(s.test)]
-        if len(cand) != 1:
-            # find it by what it guards: the frame's own code line / own summary entry
-            cand = [s for s in fn.body if isinstance(s, ast.If) and "self.contexts" in norm(s.test)
-                    and any(("start_code" in norm(x) or "self.as_stdlib_summary(" in norm(x)) for x in s.body)]
-        if len(cand) != 1:
-            raise AnalysisError(f"FMT-4: {q}: omission test not found")
-        tests.append((q, cand[0]))
+    q = "Frame._format"
+    fn = mod.fn(q)
+    ctx.R.saw(mod, q)
+    cand = [s for s in ast.walk(fn) if isinstance(s, ast.If) and "is_exiting" in norm(s.test)]
+    if len(cand) != 1:
+        cand = [s for s in fn.body if isinstance(s, ast.If) and "self.contexts" in norm(s.test) and any("start_code" in norm(x) for x in s.body)]
+    if len(cand) != 1:
+        raise AnalysisError(f"FMT-4: {q}: omission test not found")
+    s = cand[0]
     atoms = ["self.contexts", "self.contexts[-1].is_exiting"]
-    for q, s in tests:
-        try:
-            ok, cex = equivalent(s.test, lambda e: not (e[atoms[0]] and e[atoms[1]]), atoms)
-        except AnalysisError as ex:
-            ok, cex = False, str(ex)
-        if ok:
-            ctx.R.ok("FMT-4", f"{q}: the frame's own entry is emitted unless its last context is exiting")
-        else:
-            ctx.R.fail("FMT-4", mod, s, f"{q}: the frame's own line/entry must be omitted exactly when there are contexts and the last one is exiting; {cex}", construct=f"{q}: omission test")
-    y = [x for x in ast.walk(tests[1][1]) if isinstance(x, ast.Yield)]
-    if y and norm(y[0].value) == "self.as_stdlib_summary(capture_locals=capture_locals)":
-        ctx.R.ok("FMT-4", "the frame's own entry is as_stdlib_summary(capture_locals=capture_locals)")
+    try:
+        ok, cex = equivalent(s.test, lambda e: not (e[atoms[0]] and e[atoms[1]]), atoms)
+    except AnalysisError as ex:
+        ctx.R.undecided("FMT-4", f"{q}: omission test not understood: {ex}")
+        return
+    if ok:
+        ctx.R.ok("FMT-4", f"{q}: the frame's own entry is emitted unless its last context is exiting")
     else:
-        ctx.R.fail("FMT-4", mod, tests[1][1], "the last entry must be the frame's own summary with capture_locals forwarded")
+        ctx.R.fail("FMT-4", mod, s, f"{q}: the frame's own line/entry must be omitted exactly when there are contexts and the last one is exiting; {cex}", construct=f"{q}: omission test")
 
 
 def fmt6(ctx: Ctx) -> None:
@@ -441,11 +436,14 @@ def fmt9(ctx: Ctx) -> None:
                 continue
             recv = norm(c.func.value)
             tq = targets[c.func.attr].get(recv)
-            if tq is None:
-                if recv == "self" and c.func.attr == "as_stdlib_summary":
-                    tq = q.split(".")[0] + ".as_stdlib_summary"
+            if recv == "self":
+                tq = q.split(".")[0] + "." + c.func.attr
+            if tq is None or not mod.has(tq):
+                if False:
+                    pass
                 else:
-                    raise AnalysisError(f"FMT-9: cannot resolve receiver `{recv}` of {norm(c)[:60]}")
+                    ctx.R.note(f"FMT-9: receiver `{recv}` of {norm(c)[:60]} not in the receiver table; the call is covered by the emission table (FMT-13)")
+                    continue
             callee = mod.fn(tq)
             pos = [a.arg for a in callee.args.args[1:]]
             kwonly = [a.arg for a in callee.args.kwonlyargs]
@@ -463,7 +461,9 @@ def fmt9(ctx: Ctx) -> None:
                 if isinstance(a, ast.Name) and a.id == p:
                     ctx.R.ok("FMT-9", f"{q} -> {tq}: {p}={p}")
                 elif isinstance(a, ast.Constant) and isinstance(a.value, bool):
-                    if tq == "Stack._frame_summaries" and q == "Context._frame_summaries" and p == "show_contexts" and a.value is True:
+                    if p not in {x.arg for x in fn.args.args + fn.args.kwonlyargs}:
+                        ctx.R.ok("FMT-9", f"{q} -> {tq}: {p}={a.value} ({q} has no such option of its own; the value is decided by the emission table)")
+                    elif tq == "Stack._frame_summaries" and q == "Context._frame_summaries" and p == "show_contexts" and a.value is True:
                         ctx.R.ok("FMT-9", f"{q} -> {tq}: show_contexts=True (an inner stack is only reached when contexts are shown)")
                     else:
                         ctx.R.fail("FMT-9", mod, c, f"{q} passes the constant {a.value} for option `{p}` of {tq}: the caller's choice is ignored", construct=f"{q} -> {tq}: {p}={a.value}")
@@ -472,23 +472,8 @@ def fmt9(ctx: Ctx) -> None:
             missing = [p for p in (pos + kwonly) if p in OPTS and p not in bound and p in {a.arg for a in fn.args.args + fn.args.kwonlyargs}]
             for p in missing:
                 ctx.R.fail("FMT-9", mod, c, f"{q} does not forward its option `{p}` to {tq}", construct=f"{q} -> {tq}: {p} not forwarded")
-    if n < 10:
-        raise AnalysisError(f"FMT-9: {n} forwarded options found (>= 10 confirmed by hand)")
-    # order inside a context's entries: own entry, inner stack, child contexts
-    fn = mod.fn("Context._frame_summaries")
-    ys = [s for s in ast.walk(fn) if isinstance(s, (ast.Yield, ast.YieldFrom))]
-    order = [norm(y.value)[:40] for y in sorted(ys, key=lambda y: y.lineno)]
-    if len(order) == 3 and order[0].startswith("traceback.FrameSummary") and order[1].startswith("self.inner_stack._frame_summaries") and order[2].startswith("subctx._frame_summaries"):
-        ctx.R.ok("FMT-9", "a context yields its own entry, then its inner stack, then its child contexts")
-    else:
-        ctx.R.fail("FMT-9", mod, fn, f"a context's entries must be: its own entry, its inner stack, its child contexts; found {order}", construct="Context._frame_summaries order")
-    # a frame yields its contexts' entries before its own
-    fn = mod.fn("Frame.as_stdlib_summary_with_contexts")
-    loops = [s for s in fn.body if isinstance(s, ast.For) and norm(s.iter) == "self.contexts"]
-    if loops and fn.body.index(loops[0]) < len(fn.body) - 1:
-        ctx.R.ok("FMT-9", "a frame's context entries precede its own entry")
-    else:
-        ctx.R.fail("FMT-9", mod, fn, "context entries must precede the frame's own entry", construct="contexts before frame")
+    if n < 4:
+        raise AnalysisError(f"FMT-9: {n} forwarded options found (>= 4 from Stack.as_stdlib_summary / format_flat alone)")
 
 
 # ===================================================================== C20
@@ -745,24 +730,8 @@ def fmt10_11(ctx: Ctx) -> None:
 
 
 def fmt12(ctx: Ctx) -> None:
-    """FMT-12 Stack._frame_summaries yields an entry (or the with-contexts series) for every visible frame in both modes;
-    locals are captured iff requested; documented defaults"""
+    """FMT-12 locals are captured iff requested; documented defaults (that every visible frame yields its entries is FMT-13)"""
     mod = ctx.P.mod("_types")
-    fn = mod.fn("Stack._frame_summaries")
-    loops = [l for l in fn.body if isinstance(l, ast.For) and norm(l.iter) == "self.frames"]
-    if len(loops) != 1:
-        ctx.R.undecided("FMT-12", "loop over self.frames not found")
-    else:
-        g = ctx.cfg(fn)
-        ynodes = {g.node_of(_stmt(mod, y)).idx for y in ast.walk(loops[0]) if isinstance(y, (ast.Yield, ast.YieldFrom))}
-        skips = [g.node_of(c).idx for c in ast.walk(loops[0]) if isinstance(c, ast.Continue) and any("hide" in norm(gx) for gx, pol in guards_of(mod, c, fn))]
-        header = g.node_of(loops[0])
-        first = g.node_of(loops[0].body[0])
-        if ynodes and g.all_paths_pass(first, {header.idx}, ynodes | set(skips)) or first.idx in ynodes:
-            ctx.R.ok("FMT-12", "every visible frame yields its summary entry (both with and without contexts)")
-        else:
-            ctx.R.fail("FMT-12", mod, loops[0], "a visible frame can pass through Stack._frame_summaries without yielding any entry (one of the show_contexts modes yields nothing)",
-                       construct="Stack._frame_summaries: path without yield")
     for q in ("Frame.as_stdlib_summary", "Context._frame_summaries"):
         f2 = mod.fn(q)
         builds = [a for a in ast.walk(f2) if isinstance(a, ast.Assign) and norm(a.targets[0]) == "save_locals" and isinstance(a.value, (ast.Dict, ast.DictComp))]
@@ -793,6 +762,118 @@ def _stmt(mod: Mod, n: ast.AST) -> ast.AST:
     return n
 
 
+# --------------------------------------------------------------------- FMT-13 emission tables
+def _wild_eq(actual, expected) -> bool:
+    """structural equality where the string "*" in `expected` matches anything"""
+    if expected == "*":
+        return True
+    if isinstance(expected, tuple) and isinstance(actual, tuple):
+        return len(actual) == len(expected) and all(_wild_eq(a, e) for a, e in zip(actual, expected))
+    return actual == expected
+
+
+def _kw(**k) -> tuple:
+    return tuple(sorted(k.items()))
+
+
+def _emission_rule(ctx: Ctx, rule: str, qual: str, units, known: List[str], expected, what: str) -> Set[str]:
+    from .. import emit
+    mod = ctx.P.mod("_types")
+    fn = mod.fn(qual)
+    ctx.R.saw(mod, qual)
+    a = fn.args
+    bound = {p.arg: ast.Name(id=p.arg, ctx=ast.Load()) for p in a.posonlyargs + a.args[1:] + a.kwonlyargs}
+    try:
+        atoms, rows, visited = emit.table(mod, units, qual, ast.Name(id="self", ctx=ast.Load()), bound, known)
+    except emit.Unsupported as ex:
+        ctx.R.undecided(rule, f"{qual}: shape outside the emission interpreter: {ex}")
+        return set()
+    extra = [x for x in atoms if x not in known]
+    groups: Dict[tuple, List] = {}
+    for assign, items in rows:
+        key = tuple(assign[k] for k in known)
+        exp = emit.prune(expected(assign), assign)
+        groups.setdefault(key, []).append((assign, items, exp, _wild_eq(items, exp)))
+    bad_all, bad_some = [], []
+    for key, lst in groups.items():
+        wrong = [r for r in lst if not r[3]]
+        if not wrong:
+            continue
+        (bad_all if len(wrong) == len(lst) else bad_some).append(wrong[0])
+    dependent = [x for x in extra if any(k in x for k in known) or " if " in x or re.search(r"(\bself|\bparent|\[\*\]|\[-?\d+\])\.\w+\(", x)]
+    for nm in sorted(visited):
+        ctx.R.saw(mod, nm)
+    if not bad_all and not bad_some:
+        ctx.R.ok(rule, f"{qual}: {what}", f"{len(rows)} truth assignments of {atoms}; inlined {sorted(visited)}")
+        return visited
+    if bad_all or not dependent:
+        assign, items, exp, _ = (bad_all or bad_some)[0]
+        shown = {k: v for k, v in assign.items() if k in known or (not bad_all)}
+        at = fn
+        ctx.R.fail(rule, mod, at, f"{qual}: {what}; with {shown} it emits [{emit.show(items)}] where [{emit.show(exp)}] is required",
+                   construct=f"{qual}: emission under {_short(shown)}")
+    else:
+        assign, items, exp, _ = bad_some[0]
+        ctx.R.undecided(rule, f"{qual}: differs from the required emission only for some values of {dependent}, which may depend on the other conditions: {assign}")
+    return visited
+
+
+def _short(assign: Dict[str, bool]) -> str:
+    return ",".join(f"{'' if v else '!'}{k}" for k, v in sorted(assign.items()))
+
+
+def fmt13(ctx: Ctx) -> None:
+    """FMT-13 emission tables of the summary generators, decided for every truth assignment of the conditions they test
+    (helper methods inlined, parameters substituted): Stack._frame_summaries yields, for each frame in order, nothing if it is
+    hidden and hidden frames are not shown; else with contexts: the series of each context, then the frame's own entry unless
+    the last context is exiting; else exactly the frame's own entry.  Same for Frame.as_stdlib_summary_with_contexts and for the
+    series of one context (own entry, inner stack with contexts, child contexts)."""
+    F = "self.frames[*]"
+    cl, shf = "capture_locals", "show_hidden_frames"
+
+    def frame_series(fr: str, assign) -> tuple:
+        ctxs = ("LOOP", f"{fr}.contexts", (("UNIT", "Context._frame_summaries", f"{fr}.contexts[*]",
+                                            _kw(capture_locals=cl, override_line="None", parent=fr, show_hidden_frames=shf)),))
+        own = ("OWN", fr, _kw(capture_locals=cl))
+        if assign[f"{fr}.contexts"] and assign[f"{fr}.contexts[-1].is_exiting"]:
+            return (ctxs,)
+        return (ctxs, own)
+
+    def exp_stack(assign) -> tuple:
+        if assign[f"{F}.hide"] and not assign[shf]:
+            per: tuple = ()
+        elif assign["show_contexts"]:
+            per = frame_series(F, assign)
+        else:
+            per = (("OWN", F, _kw(capture_locals=cl)),)
+        return (("LOOP", "self.frames", per),)
+
+    units = {"Frame.as_stdlib_summary": "OWN", "Context._frame_summaries": "UNIT"}
+    v1 = _emission_rule(ctx, "FMT-13", "Stack._frame_summaries", units,
+                        [f"{F}.hide", shf, "show_contexts", f"{F}.contexts", f"{F}.contexts[-1].is_exiting"], exp_stack,
+                        "one entry (or the with-contexts series) per visible frame, in order, in both modes")
+    v2 = _emission_rule(ctx, "FMT-13", "Frame.as_stdlib_summary_with_contexts", units,
+                        ["self.contexts", "self.contexts[-1].is_exiting"], lambda a: frame_series("self", a),
+                        "each context's series, then the frame's own entry unless the last context is exiting")
+
+    def exp_context(assign) -> tuple:
+        if assign["self.hide"] and not assign[shf]:
+            return ()
+        out: tuple = (("FS",),)
+        if not assign["self.inner_stack is None"]:
+            out += (("UNIT", "Stack._frame_summaries", "self.inner_stack", _kw(capture_locals=cl, show_contexts="True", show_hidden_frames=shf)),)
+        if assign["isinstance(self.children[*], Context)"]:
+            out += (("LOOP", "self.children", (("UNIT", "Context._frame_summaries", "self.children[*]",
+                                                 _kw(capture_locals=cl, override_line="*", parent="parent", show_hidden_frames=shf)),)),)
+        return out
+
+    units3 = {"Frame.as_stdlib_summary": "OWN", "Context._frame_summaries": "UNIT", "Stack._frame_summaries": "UNIT"}
+    v3 = _emission_rule(ctx, "FMT-13", "Context._frame_summaries", units3,
+                        ["self.hide", shf, "self.inner_stack is None", "isinstance(self.children[*], Context)"], exp_context,
+                        "nothing if hidden; else its own entry, its inner stack (contexts shown), then its child contexts")
+    ctx.R.expect_min("FMT-13", 3)
+
+
 C18 = [fmt1, fmt2, fmt3, fmt5, fmt7, fmt10_11]
-C19 = [fmt2, fmt4, fmt6, fmt8, fmt9, fmt12]
+C19 = [fmt2, fmt4, fmt6, fmt8, fmt9, fmt12, fmt13]
 C20 = [cont7, mode_rules, ref1]
